@@ -44,7 +44,7 @@ theorem effStep_commOn {K V : Type} [DecidableEq K] (l : List Eff) (sem : Sem K 
 /-- **A described body computes the same program state for every visiting order.** -/
 theorem runBody_perm {K V C : Type} [DecidableEq K] (site : String) (b : Body) (sem : Sem K V)
     (sem2 : Sem2 K) (p : PState K V C) {es₁ es₂ : List (Entry K)} (hk : DistinctKeys es₁)
-    (hs : SeparateEntries es₁) (perm : es₁.Perm es₂) :
+    (hs : SeparateEntries es₁) (ha : PayloadsAgree b sem2 es₁) (perm : es₁.Perm es₂) :
     runBody site b sem sem2 p es₁ = runBody site b sem sem2 p es₂ := by
   cases b with
   | effects l =>
@@ -59,6 +59,15 @@ theorem runBody_perm {K V C : Type} [DecidableEq K] (site : String) (b : Body) (
         = firstIn (fun e => if sem2.hit e then some () else none) es₂ :=
       findSome?_perm (fun _ _ _ _ _ _ _ _ => rfl) perm
     rw [this]
+  | firstPayload t =>
+    cases es₁ with
+    | nil => rw [List.Perm.eq_nil (perm.symm)]
+    | cons e₁ r₁ =>
+      cases es₂ with
+      | nil => exact absurd (List.Perm.eq_nil perm) (by simp)
+      | cons e₂ r₂ =>
+        have h := ha t rfl e₁ (by simp) e₂ (perm.mem_iff.mpr (by simp))
+        simp only [runBody, h]
   | «opaque» w => rfl
 
 end NA.C16.D
